@@ -10,7 +10,7 @@ for f in $WT/SEEDED/*; do b=$(basename $f); [ "$b" != patch.diff ] && cp -r $f $
 LOG=$D/confirm.log; : > $LOG
 cd $WT || exit 2
 git checkout -q -- . ; git status --short | grep -v "^??" && { echo "worktree not clean" | tee -a $LOG; exit 2; }
-export CARGO_NET_OFFLINE=true
+export CARGO_NET_OFFLINE=true; export TMPDIR=/tmp/tmp-$(basename $WT); mkdir -p $TMPDIR
 echo "== demo on clean tree (expect exit 0)" | tee -a $LOG
 bash $D/demo.sh $WT >> $LOG 2>&1; A=$?; echo "exit=$A" | tee -a $LOG
 git apply $D/patch.diff || { echo "patch does not apply" | tee -a $LOG; exit 2; }
